@@ -455,10 +455,10 @@ func (bg *BondgoCheck) Visit(n ast.Node) ast.Visitor {
 					regname := procbuilder.Get_register_name(cell.Id)
 					switch incDecStmt.Tok {
 					case token.INC:
-						scope.WriteLine(scope.CurrentRoutine, "inc "+regname)
+						bg.WriteLine(bg.CurrentRoutine, "inc "+regname)
 						scope.Used <- UsageNotify{TR_PROC, scope.CurrentRoutine, C_OPCODE, "inc", I_NIL}
 					case token.DEC:
-						scope.WriteLine(scope.CurrentRoutine, "dec "+regname)
+						bg.WriteLine(bg.CurrentRoutine, "dec "+regname)
 						scope.Used <- UsageNotify{TR_PROC, scope.CurrentRoutine, C_OPCODE, "dec", I_NIL}
 					}
 				case MEMORY:
@@ -471,19 +471,19 @@ func (bg *BondgoCheck) Visit(n ast.Node) ast.Visitor {
 
 						regname := procbuilder.Get_register_name(newregcell.Id)
 
-						scope.WriteLine(scope.CurrentRoutine, "m2r "+regname+" "+strconv.Itoa(cell.Id))
+						bg.WriteLine(bg.CurrentRoutine, "m2r "+regname+" "+strconv.Itoa(cell.Id))
 						scope.Used <- UsageNotify{TR_PROC, scope.CurrentRoutine, C_OPCODE, "m2r", I_NIL}
 
 						switch incDecStmt.Tok {
 						case token.INC:
-							scope.WriteLine(scope.CurrentRoutine, "inc "+regname)
+							bg.WriteLine(bg.CurrentRoutine, "inc "+regname)
 							scope.Used <- UsageNotify{TR_PROC, scope.CurrentRoutine, C_OPCODE, "inc", I_NIL}
 						case token.DEC:
-							scope.WriteLine(scope.CurrentRoutine, "dec "+regname)
+							bg.WriteLine(bg.CurrentRoutine, "dec "+regname)
 							scope.Used <- UsageNotify{TR_PROC, scope.CurrentRoutine, C_OPCODE, "dec", I_NIL}
 						}
 
-						scope.WriteLine(scope.CurrentRoutine, "r2m "+regname+" "+strconv.Itoa(cell.Id))
+						bg.WriteLine(bg.CurrentRoutine, "r2m "+regname+" "+strconv.Itoa(cell.Id))
 						scope.Used <- UsageNotify{TR_PROC, scope.CurrentRoutine, C_OPCODE, "r2m", I_NIL}
 						scope.Reqs <- VarReq{REQ_REMOVE, scope.CurrentRoutine, newregcell}
 						if (<-scope.Answers).AnsType != ANS_OK {
